@@ -6,6 +6,7 @@ import KyupyVerif.Proofs.BenchErr
 import KyupyVerif.Proofs.BenchSched
 import KyupyVerif.Proofs.VerilogEnd
 import KyupyVerif.Proofs.SemL
+import KyupyVerif.Proofs.WideGate
 /-! # C11 — parsed Verilog and bench netlists simulate as the described netlist
 
 Objects of the theorems: two hand-written models of `kyupy/verilog.py` and `kyupy/bench.py`.
@@ -66,6 +67,41 @@ tree after the `name` callback, handed on by `toR`).  Theorems quantify over ALL
   table makes of `K`; for a library of primitives this is the function of the netlist; library substitution is C10
   `resolve_sem`, composed with these theorems in Props/C11Library.lean); NOT covered: multi-bit pin connections, 1-bit bus by base name, floating inputs / undriven outputs, assign pairs
   out of dependency order or onto a driven target (findings D23/D24).
+  **ARITY DOMAIN (audit finding 1, known finding D33).**  `lineEq`, `BenchModel` (`gateVal`), `VModel` (`instVal`) read operands /
+  pins 0..3 of a gate — exactly as `SimOps` does.  A gate with more than four connected inputs (`z = AND(a,b,c,d,e)`; real ISCAS
+  files have 5..9-input gates) means, for model, specification and simulator alike, the 4-input primitive of its first four pins —
+  not what the text says.  Therefore: `benchArityB` / `vArityB` / `Net.arityOKB` (at most four operands / input pin indices 0..3 /
+  at most four input pin slots per combinational gate) are explicit DOMAIN hypotheses of `bench_parsed_sem`, `bench_end_to_end(4/8)`,
+  `bench_end_to_end_closed`, `verilog_parsed_sem`, `verilog_end_to_end(8)` (and of C02 `gate_equations_are_netlist`,
+  `sim*_netlist_all_circuits`, C01 `logic_sim_end_to_end_all_circuits`).  For the two-valued bench headline theorems the hypothesis is
+  USED: `bench_end_to_end`, `bench_end_to_end_closed` conclude with the N-ARY reading `BenchModelN` (Model/BenchSem.lean `gateFunN`:
+  and/nand = ALL operands, or/nor = ANY operand, xor/xnor = parity of ALL operands; at least two operand slots, a missing one reads
+  `z`; fixed-arity kinds by their formula), `bench_nary_reading` / `gate_nary_reading`: inside the domain the n-ary reading IS the
+  four-operand reading.  In the generic-domain theorems (any `α`, 4/8-valued, Verilog) the hypothesis is not used by the proof: the
+  statement is true for every description, the hypothesis marks where it speaks about the function the text describes.
+  `bench_end_to_end_as_simulated` is the unrestricted statement (what kyupy computes for every description);
+  `wide_gate_not_simulated`: kernel-checked witness that outside the domain the simulation result is NOT the n-ary model
+  (`AND5`, a..d = 1, e = 0: simulated 1, described 0).  Harness: `bencharity` / `verilogarity` / `netarity` evaluated on every case
+  (tags `parsed-sem:*:benchArityB=` / `vArityB=`; disagreement with the generator's knowledge = broken tie); the generators produce
+  5..9-input gates (bench kinds, library PRIM), the oracle's ground truth is n-ary, its class `wide-gate` is known finding D33;
+  outside the domain σ is compared with the first-four-operands reading (the model follows the code).
+  **Audit finding 10, what was done and what stays restricted.**  (a) TEXT LAYOUTS: `bench_text_layout_irrelevant` / `bench_text_to_net`
+  quantify over the layouts of the CANONICAL token stream `benchToks` — every interface statement spelled `INPUT`; texts spelling
+  `OUTPUT(` / `input(` / `output(` are NOT covered by the layout theorems (they are by `parseBench` itself, by the concrete examples and
+  by the correspondence run on every generated text, which uses all four spellings); `verilog_text_layout_irrelevant` likewise
+  covers plain names written plain and canonical digit strings: escaped spellings of plain names (`\a `) and non-canonical numbers
+  (`[03:0]`) are outside the layout theorems (correspondence only); `verilog_text_to_net` is about the PRINTED text, its "any layout"
+  is `verilog_text_layout_irrelevant` composed by hand (same `parseVerilog` result), not a separate theorem.  NOT DONE: token classes
+  for keyword spellings.  (b) `circOfText` now contains the transformer's raise guard `RStmt.ok` (zero-width / out-of-base sized
+  constants).  (c) `VModel` uses the builder's `assignPairs (sigDecls …)`, `outSig`, `inputNames`, `posNames`: bus-bit order, assign bit
+  pairing, selects, concatenations, sized constants and declaration look-up are NOT re-specified inside the denotation; these clauses
+  rest on `range_expand` (`rangeList` against the closed forms `l + i` / `l - i`), `const_expand` (against `Nat.testBit` of the parsed
+  number), `concat_flat`, `sig_decls_lookup` / `_nonwire_wins` / `_wire_last`, `ports_order` (`io_nodes` = `posNames`), `assign_pairs_expand`
+  — each pins its function against an independent closed form, except `posNames` / `expandSigs` themselves, which are DEFINITIONS shared
+  by builder and denotation (their reading "port list expanded by declared range in declared direction" is `ports_order_expansion` +
+  `decl_names_*`).  (d) `assign_line`, `assign_line_driven_source`, `reader_onebit_fallback`, `assign_order_matters`, `onebit_bus_index`
+  are marked as statements about the EARLIER code.  (e) coverage: a Verilog case inside `verilogOKB` whose σ was compared with nothing
+  (`linesDrivenB` false: kinds unknown to the simulator) is no longer counted as `parsed-sem:verilog:covered`.
   Hypotheses of the end-to-end theorems `orderOKB` / `forksOKB` / `linesDrivenB` are decidable conditions on (net, order); for
   bench they follow from the description (`bench_sched_hyps`, `bench_end_to_end_closed`: closed description over kinds the prefix
   table knows, a topological order that covers every node), for Verilog they are hypotheses.  For bench `benchOKB` is exactly
@@ -361,7 +397,7 @@ theorem pin_reaches_input (cfg : Cfg) (tl : TL) (ports : List String) (stmts : L
 theorem reader_of_driven (cfg : Cfg) (ds : List Decl) (C : Circ) (s : String) (h : C.isFork s = true) :
     resolveRead cfg ds C s = (s, false) := resolveRead_of_isFork cfg ds C s h
 
-/-- the code as it stands resolves a 1-bit bus named by its base only through the literal index 0 -/
+/-- **[about the EARLIER code — `assignFix = false` / `onebitDecl = false` are pass 1.5 / pass 2 before the repairs of findings D23/D24; kept as the record of those findings, not a statement about the code under test after the repairs]** the code as it stands resolves a 1-bit bus named by its base only through the literal index 0 -/
 theorem reader_onebit_fallback (ds : List Decl) (C : Circ) (s : String) (h0 : C.isFork s = false) :
     resolveRead {} ds C s = if C.isFork (s ++ "[0]") then (s ++ "[0]", false) else (s, true) := by
   simp [resolveRead, h0]
@@ -390,7 +426,7 @@ theorem pin_reaches (cfg : Cfg) (tl : TL) (ports : List String) (stmts : List St
     · exact Or.inr ⟨hc, k, hk, hl⟩
 
 /-! ## assigns -/
-/-- One (target, source) bit pair of the assigns (`assignPairs`: both sides expanded through `sig_decls`, zipped), in the
+/-- **[about the EARLIER code — `assignFix = false` / `onebitDecl = false` are pass 1.5 / pass 2 before the repairs of findings D23/D24; kept as the record of those findings, not a statement about the code under test after the repairs]** One (target, source) bit pair of the assigns (`assignPairs`: both sides expanded through `sig_decls`, zipped), in the
 code as it stands (`assignFix = false`).  `C` is the circuit at the moment the pair is visited.
 * target already a fork → line `t → s` (the source becomes an alias of the target);
 * else source a fork → line `s → t`;
@@ -425,7 +461,7 @@ theorem assign_line (cfg : Cfg) (hcfg : cfg.assignFix = false) (tl : TL) (ports 
   · exact ⟨hsub.lines _ (s3 h1 h2 h3).1, hsub.nodes _ (s3 h1 h2 h3).2⟩
   · rw [h15, s4 h1 h2 h3]
 
-/-- corollary in netlist terms: a source that is driven by a cell or is an input (a fork after pass 1) and a target that
+/-- **[about the EARLIER code — `assignFix = false` / `onebitDecl = false` are pass 1.5 / pass 2 before the repairs of findings D23/D24; kept as the record of those findings, not a statement about the code under test after the repairs]** corollary in netlist terms: a source that is driven by a cell or is an input (a fork after pass 1) and a target that
 nothing has driven so far give the line source → target -/
 theorem assign_line_driven_source (cfg : Cfg) (hcfg : cfg.assignFix = false) (tl : TL) (ports : List String) (stmts : List Stmt)
     (pre post : List (String × String)) (t s : String)
@@ -571,7 +607,7 @@ example : (⟨.fork "e[0]", .cell "u2" 0, none⟩ : LineM) ∈ (module {} exTL [
 example : (⟨.fork "a[1]", .cell "u1" 0, some "a[1]~u1/A1"⟩ : LineM) ∈ (module { bf := true } exTL ["z", "a", "e"] exStmts).lines ∧
     (⟨forkKind, "a[1]~u1/A1", true⟩ : NodeM) ∈ (module { bf := true } exTL ["z", "a", "e"] exStmts).nodes := by decide +kernel
 
-/-- Statement order matters in the code as it stands: `assign z = b; assign b = a;` leaves `z` without driver (the first
+/-- **[about the EARLIER code — `assignFix = false` / `onebitDecl = false` are pass 1.5 / pass 2 before the repairs of findings D23/D24; kept as the record of those findings, not a statement about the code under test after the repairs]** Statement order matters in the code as it stands: `assign z = b; assign b = a;` leaves `z` without driver (the first
 assign is dropped: neither `z` nor `b` is driven when it is visited), `assign b = a; assign z = b;` connects it.  The
 repaired pass 1.5 gives the same lines for both orders. -/
 theorem assign_order_matters :
@@ -585,7 +621,7 @@ theorem assign_order_matters :
     (⟨.fork "z", .cell "z" 0, none⟩ : LineM) ∈ (module { assignFix := true } exTL ["a", "z"] (decls ++ [zb, ba])).lines := by
   decide +kernel
 
-/-- The 1-bit-bus fall-back of pass 2 tries index 0 only: with `input [3:3] a` a pin `.I(a)` reads a new undriven fork `a`
+/-- **[about the EARLIER code — `assignFix = false` / `onebitDecl = false` are pass 1.5 / pass 2 before the repairs of findings D23/D24; kept as the record of those findings, not a statement about the code under test after the repairs]** The 1-bit-bus fall-back of pass 2 tries index 0 only: with `input [3:3] a` a pin `.I(a)` reads a new undriven fork `a`
 in the code as it stands, and the fork `a[3]` with the repaired look-up through the declaration. -/
 theorem onebit_bus_index :
     let st := [Stmt.decls [⟨.input, "a", some [3]⟩], Stmt.decls [⟨.output, "z", none⟩],
@@ -694,11 +730,12 @@ theorem verilog_text_layout_irrelevant (ms : List VModule) (hv : ms.all validMod
 /-- text → netlist: for a module whose statements the post-parse model accepts (`toRs`: no name with an apostrophe other
 than sized constants), the circuit built from the model's own reading of the printed text is `module` of the transformed
 statement list — so `ports_order`, `pin_reaches`, `readers_exact`, `assign_line`, … above speak about circuits built from
-TEXT; an instantiation with a positional pin sets `err` (the real `module()` raises) -/
+TEXT; an instantiation with a positional pin sets `err` (the real `module()` raises), and so does a sized constant `sigsel` raises
+on (`RStmt.ok` false: `assign z = 0'b1;` — audit finding 10(b): the guard is now inside `circOfText`) -/
 theorem verilog_text_to_netlist (cfg : Cfg) (tl : TL) (m : VModule) (rs : List RStmt) (hv : validModule m = true)
     (hr : toRs m.stmts = some rs) :
     KV.VerilogText.circOfText cfg tl (printVerilog [m]) =
-      some ((module cfg tl m.ports (rs.map transform)).failIf (m.stmts.any VStmt.hasPos)) := by
+      some ((module cfg tl m.ports (rs.map transform)).failIf (m.stmts.any VStmt.hasPos || !(rs.all RStmt.ok))) := by
   have := verilog_text_roundtrip [m] (by simp [hv])
   simp only [KV.VerilogText.circOfText, this, hr]
 
@@ -717,6 +754,10 @@ example : printVerilog [exVM] =
   decide +kernel
 example : parseVerilog (printVerilog [exVM]) = some [exVM] := by decide +kernel
 example : (toRs exVM.stmts).isSome = true ∧ exVM.stmts.any VStmt.hasPos = true := by decide +kernel
+/-- the guard: a zero-width / out-of-base sized constant builds nothing (the real `verilog.parse` raises) -/
+example : (circOfText {} exTL "module m(z); output z; assign z = 0'b1; endmodule").map (·.err) = some true ∧
+    (circOfText {} exTL "module m(z); output z; assign z = 1'b2; endmodule").map (·.err) = some true ∧
+    (circOfText {} exTL "module m(z); output z; assign z = 1'b1; endmodule").map (·.err) = some false := by decide +kernel
 
 /-- concrete texts: comments of the three kinds, `\r\n`, an attribute between `(` tokens, keywords as plain names, `module`
 glued to the name, two modules -/
@@ -794,9 +835,12 @@ fork `g` carries `g`, the line from fork `d` into a gate pin carries `d`);
 (2) every model `σ` of the description induces a labelling of the lines consistent with the netlist;
 (3) every labelling consistent with the netlist is induced by a model;
 (4) two models inducing the same labelling are equal — models and consistent labellings correspond one-to-one.
-Relational: no acyclicity hypothesis; a cyclic description has as many models as the net has consistent labellings. -/
-theorem bench_parsed_sem {α : Type} (stmts : List BStmt) (hok : benchOKB stmts = true) (z : α) (neg : α → α)
-    (prim : String → α → α → α → α → α) (a : Nat → α) :
+Relational: no acyclicity hypothesis; a cyclic description has as many models as the net has consistent labellings.
+DOMAIN hypothesis `benchArityB` (audit finding 1, known finding D33; not used by the proof): `BenchModel` and `lineEq` read operands
+0..3 of a gate statement — inside the domain this is the operator of the family over ALL operands (`bench_nary_reading`), outside it
+the statement stays true but speaks about a reading of the text no reader has (`wide_gate_not_simulated`). -/
+theorem bench_parsed_sem {α : Type} (stmts : List BStmt) (hok : benchOKB stmts = true) (_har : benchArityB stmts = true) (z : α)
+    (neg : α → α) (prim : String → α → α → α → α → α) (a : Nat → α) :
     (benchNet stmts).lines.size = (benchSigs stmts).length ∧
     (∀ σ, BenchModel stmts z prim a σ → NetLabelling (benchNet stmts) z neg prim a (benchLabel stmts σ)) ∧
     (∀ v, NetLabelling (benchNet stmts) z neg prim a v →
@@ -838,14 +882,49 @@ theorem bench_checker_sound {α : Type} [BEq α] [LawfulBEq α] (stmts : List BS
     (a : Nat → α) (tab : List (String × α)) (h : benchModelB stmts z prim a tab = true) :
     BenchModel stmts z prim a (envOf stmts z a tab) := benchModelB_sound z prim a tab h
 
+/-- **inside the arity domain the four-operand reading is the n-ary reading**: for a description whose combinational gate
+statements have at most four operands, `σ` is a model in the n-ary reading `BenchModelN` (and/nand: ALL operands, or/nor: ANY
+operand, xor/xnor: parity of ALL operands, at least two operand slots, a missing one reads `z`; fixed-arity kinds by their formula)
+iff it is a model in the reading `BenchModel … prim2` of `bench_parsed_sem` (operands 0..3, primitive by operand count) -/
+theorem bench_nary_reading (stmts : List BStmt) (har : benchArityB stmts = true) (z : Bool) (a : Nat → Bool) (σ : String → Bool) :
+    BenchModelN stmts z a σ ↔ BenchModel stmts z prim2 a σ := benchModelN_iff stmts har z a σ
+
+/-- per gate statement: at most four operands ⇒ operands 0..3 under the primitive chosen by the operand count = the family's
+operator over all operands -/
+theorem gate_nary_reading (z : Bool) (kind : String) (drv : List String) (σ : String → Bool) (h : drv.length ≤ 4) :
+    gateVal z prim2 kind drv σ = gateFunN z kind.toLower (drv.map σ) := gateVal_eq_nary z kind drv σ h
+
+example : gateFunN false "and" [true, true, true, true, false] = false ∧ gateFunN false "nand" [true, true, true, true, false] = true ∧
+    gateFunN false "xor" [true, true, true, true, true, false, false] = true ∧ gateFunN false "nor" [false, false, false, false, true] = false ∧
+    gateFunN false "and" [true] = false ∧ gateFunN false "or" [true] = true ∧ gateFunN false "mux21" [false, true, true] = true := by
+  decide +kernel
+
 /-- **`bench_end_to_end`** (2-valued; composition with C01/C02 `sim2_all_circuits` / `gate_equations_are_netlist`): for every
-description that builds, every topological order of its net (`orderOKB`) that schedules every line (`linesDrivenB`; forks are
-forks: `forksOKB` — three decidable conditions on net and order, evaluated by the driver on every real circuit and order) and every
-stimulus `env`: there is exactly ONE model `σ` of the description under the assignment the stimulus gives to the interface
-positions, the 2-valued `LogicSim` result (`exec semL2n` of the rows the `SimOps` model generates) is `σ` of the line's signal on
-every line, and what is captured at every interface position is what the description observes: `σ o` at an output port `o`, `σ d` at
-a flip-flop `q = DFF(d)`.  Existence and uniqueness of the model are CONCLUSIONS (an order exists only for acyclic nets). -/
-theorem bench_end_to_end (stmts : List BStmt) (hok : benchOKB stmts = true) (order : List Nat)
+description that builds and stays inside the arity domain (`benchArityB`: at most four operands per combinational gate statement —
+audit finding 1; outside it the real simulator computes something else, `wide_gate_not_simulated`, known finding D33), every
+topological order of its net (`orderOKB`) that schedules every line (`linesDrivenB`; forks are forks: `forksOKB` — three decidable
+conditions on net and order, evaluated by the driver on every real circuit and order) and every stimulus `env`: there is exactly ONE
+model `σ` of the description IN THE N-ARY READING (`BenchModelN`: every gate statement computes its family's operator over ALL its
+operands) under the assignment the stimulus gives to the interface positions, the 2-valued `LogicSim` result (`exec semL2n` of the
+rows the `SimOps` model generates) is `σ` of the line's signal on every line, and what is captured at every interface position is
+what the description observes: `σ o` at an output port `o`, `σ d` at a flip-flop `q = DFF(d)`.  Existence and uniqueness of the
+model are CONCLUSIONS (an order exists only for acyclic nets). -/
+theorem bench_end_to_end (stmts : List BStmt) (hok : benchOKB stmts = true) (har : benchArityB stmts = true) (order : List Nat)
+    (ho : orderOKB (benchNet stmts) order = true) (hfk : forksOKB (benchNet stmts) order = true)
+    (hall : linesDrivenB Gen.kindPrefixes (benchNet stmts) order = true) (env : Nat → Bool) :
+    ∃ σ, BenchModelN stmts (env (benchNet stmts).idx.zero) (fun p => env ((benchNet stmts).idx.ppi + p)) σ ∧
+      (∀ σ', BenchModelN stmts (env (benchNet stmts).idx.zero) (fun p => env ((benchNet stmts).idx.ppi + p)) σ' → σ' = σ) ∧
+      (∀ i, i < (benchNet stmts).lines.size →
+        exec semL2n ((genOps Gen.kindPrefixes (benchNet stmts) order false).map OpRow.toOp) env i = benchLabel stmts σ i) ∧
+      ((benchNet stmts).sNodes.map fun n => ((benchNet stmts).node n).inPin 0 |>.map
+        (exec semL2n ((genOps Gen.kindPrefixes (benchNet stmts) order false).map OpRow.toOp) env)) = benchCaptures stmts σ := by
+  obtain ⟨σ, h1, h2, h3, h4⟩ := bench_sim_generic (benchOK_of stmts hok) semL2n specL2 (fun _ h xs => semL2n_eq_spec h xs) (!·) prim2
+    semSpec2 order ho hfk hall env
+  exact ⟨σ, (bench_nary_reading stmts har _ _ σ).mpr h1, fun σ' h => h2 σ' ((bench_nary_reading stmts har _ _ σ').mp h), h3, h4⟩
+
+/-- the same in the four-operand reading, WITHOUT the arity hypothesis: what the simulator computes for EVERY description that
+builds — the statement the audit called "true about a bent specification"; it is the tool of `wide_gate_not_simulated` -/
+theorem bench_end_to_end_as_simulated (stmts : List BStmt) (hok : benchOKB stmts = true) (order : List Nat)
     (ho : orderOKB (benchNet stmts) order = true) (hfk : forksOKB (benchNet stmts) order = true)
     (hall : linesDrivenB Gen.kindPrefixes (benchNet stmts) order = true) (env : Nat → Bool) :
     ∃ σ, BenchModel stmts (env (benchNet stmts).idx.zero) prim2 (fun p => env ((benchNet stmts).idx.ppi + p)) σ ∧
@@ -868,12 +947,14 @@ theorem bench_sched_hyps (stmts : List BStmt) (hcl : benchClosedB stmts = true) 
    fun hkn hcov => bench_linesDriven (benchClosed_of stmts hcl) hkn order (fun n hn => hcov n (by rw [benchNet_nodes_size]; exact hn))⟩
 
 /-- **`bench_end_to_end_closed`**: `bench_end_to_end` with hypotheses on the description and the order only — a closed
-description over known kinds, a topological order (`orderOKB`) that covers every node of the net -/
+description over known kinds with at most four operands per combinational gate statement (`benchArityB`), a topological order
+(`orderOKB`) that covers every node of the net; the model is the one of the N-ARY reading -/
 theorem bench_end_to_end_closed (stmts : List BStmt) (hcl : benchClosedB stmts = true) (hkn : benchKnownB stmts = true)
+    (har : benchArityB stmts = true)
     (order : List Nat) (ho : orderOKB (benchNet stmts) order = true) (hcov : ∀ n, n < (benchNet stmts).nodes.size → n ∈ order)
     (env : Nat → Bool) :
-    ∃ σ, BenchModel stmts (env (benchNet stmts).idx.zero) prim2 (fun p => env ((benchNet stmts).idx.ppi + p)) σ ∧
-      (∀ σ', BenchModel stmts (env (benchNet stmts).idx.zero) prim2 (fun p => env ((benchNet stmts).idx.ppi + p)) σ' → σ' = σ) ∧
+    ∃ σ, BenchModelN stmts (env (benchNet stmts).idx.zero) (fun p => env ((benchNet stmts).idx.ppi + p)) σ ∧
+      (∀ σ', BenchModelN stmts (env (benchNet stmts).idx.zero) (fun p => env ((benchNet stmts).idx.ppi + p)) σ' → σ' = σ) ∧
       (∀ i, i < (benchNet stmts).lines.size →
         exec semL2n ((genOps Gen.kindPrefixes (benchNet stmts) order false).map OpRow.toOp) env i = benchLabel stmts σ i) ∧
       ((benchNet stmts).sNodes.map fun n => ((benchNet stmts).node n).inPin 0 |>.map
@@ -883,10 +964,12 @@ theorem bench_end_to_end_closed (stmts : List BStmt) (hcl : benchClosedB stmts =
     rw [Bool.and_eq_true] at hcl
     exact hcl.1
   obtain ⟨h1, h2⟩ := bench_sched_hyps stmts hcl order
-  exact bench_end_to_end stmts hok order ho h1 (h2 hkn hcov) env
+  exact bench_end_to_end stmts hok har order ho h1 (h2 hkn hcov) env
 
-/-- the same for the 8-valued simulation against the documented algebra (`prim8`; `semL8` = the real dispatch of `c_prop`) -/
-theorem bench_end_to_end8 (stmts : List BStmt) (hok : benchOKB stmts = true) (order : List Nat)
+/-- the same for the 8-valued simulation against the documented algebra (`prim8`; `semL8` = the real dispatch of `c_prop`), in the
+four-operand reading `BenchModel` (no n-ary reading is defined over `V3`/`V2`); `benchArityB` is the DOMAIN hypothesis (not used by
+the proof) inside which that reading is the one of the text -/
+theorem bench_end_to_end8 (stmts : List BStmt) (hok : benchOKB stmts = true) (_har : benchArityB stmts = true) (order : List Nat)
     (ho : orderOKB (benchNet stmts) order = true) (hfk : forksOKB (benchNet stmts) order = true)
     (hall : linesDrivenB Gen.kindPrefixes (benchNet stmts) order = true) (env : Nat → V3) :
     ∃ σ, BenchModel stmts (env (benchNet stmts).idx.zero) prim8 (fun p => env ((benchNet stmts).idx.ppi + p)) σ ∧
@@ -898,7 +981,7 @@ theorem bench_end_to_end8 (stmts : List BStmt) (hok : benchOKB stmts = true) (or
   bench_sim_generic (benchOK_of stmts hok) semL8 specL8 (fun _ h xs => semL8_eq_spec h xs) specNot prim8 semSpec8 order ho hfk hall env
 
 /-- … and the 4-valued one -/
-theorem bench_end_to_end4 (stmts : List BStmt) (hok : benchOKB stmts = true) (order : List Nat)
+theorem bench_end_to_end4 (stmts : List BStmt) (hok : benchOKB stmts = true) (_har : benchArityB stmts = true) (order : List Nat)
     (ho : orderOKB (benchNet stmts) order = true) (hfk : forksOKB (benchNet stmts) order = true)
     (hall : linesDrivenB Gen.kindPrefixes (benchNet stmts) order = true) (env : Nat → V2) :
     ∃ σ, BenchModel stmts (env (benchNet stmts).idx.zero) prim4 (fun p => env ((benchNet stmts).idx.ppi + p)) σ ∧
@@ -927,7 +1010,8 @@ def exDff : List BStmt :=
 def exDffA : Nat → Bool := fun p => p == 0 || p == 3
 
 example : KV.BenchText.parseBench "INPUT(a) INPUT(b) OUTPUT(z)\nq = DFF(n)\nn = NAND(a, q)\nz = XOR(n, b)" = some exDff := by decide +kernel
-example : exDff.all KV.BenchText.validStmt = true ∧ benchOKB exDff = true ∧ benchClosedB exDff = true ∧ benchKnownB exDff = true := by
+example : exDff.all KV.BenchText.validStmt = true ∧ benchOKB exDff = true ∧ benchClosedB exDff = true ∧ benchKnownB exDff = true ∧
+    benchArityB exDff = true := by
   decide +kernel
 example : benchSNames exDff = [.fork "a", .fork "b", .fork "z", .cell "q" 0] ∧ benchSigs exDff = ["q", "n", "n", "a", "q", "z", "n", "b"] := by
   decide +kernel
@@ -946,6 +1030,59 @@ example : specPrimName "nand" false false = some "NAND2" ∧ specPrimName "nand"
     specPrimName "and" true true = some "AND4" ∧ specPrimName "not" false false = some "INV1" ∧
     specPrimName "buff" false false = some "BUF1" ∧ specPrimName "__const1__" false false = some "INV1" ∧
     prim2 "NAND2" true true false false = false ∧ prim2 "INV1" false false false false = true := by decide +kernel
+/-! ### outside the arity domain: `INPUT(a,b,c,d,e) OUTPUT(z) z = AND(a,b,c,d,e)` (known finding D33) -/
+def exWide : List BStmt := [.intf ["a", "b", "c", "d", "e"], .intf ["z"], .gate "z" "AND" ["a", "b", "c", "d", "e"]]
+/-- stimulus: `a = b = c = d = 1`, `e = 0` (interface positions 0..4 = signals `ppi + 0..4`; everything else 0) -/
+def exWideEnv : Nat → Bool := fun x => decide ((benchNet exWide).idx.ppi ≤ x ∧ x < (benchNet exWide).idx.ppi + 4)
+def exWideOrder : List Nat := [0, 1, 2, 3, 4, 6, 5]
+
+/-- **`wide_gate_not_simulated`** (kernel-checked witness of audit finding 1, known finding D33): the description
+`z = AND(a, b, c, d, e)` is closed, over known kinds, its net and the order satisfy every hypothesis of `bench_end_to_end` EXCEPT the
+arity domain — and at `a = b = c = d = 1`, `e = 0` the 2-valued `LogicSim` result on the line into the output fork `z` (line 0 of the
+net) is `true`, while every model of the description in the n-ary reading has `z = false`: the simulator computes `AND4(a, b, c, d)`
+and ignores `e`.  (The real code does the same: harness/c11.py oracle class `wide-gate`.) -/
+theorem wide_gate_not_simulated :
+    benchClosedB exWide = true ∧ benchKnownB exWide = true ∧ benchArityB exWide = false ∧
+    orderOKB (benchNet exWide) exWideOrder = true ∧ forksOKB (benchNet exWide) exWideOrder = true ∧
+    linesDrivenB Gen.kindPrefixes (benchNet exWide) exWideOrder = true ∧ (benchSigs exWide).getD 0 "" = "z" ∧
+    exec semL2n ((genOps Gen.kindPrefixes (benchNet exWide) exWideOrder false).map OpRow.toOp) exWideEnv 0 = true ∧
+    (∀ σ, BenchModelN exWide (exWideEnv (benchNet exWide).idx.zero) (fun p => exWideEnv ((benchNet exWide).idx.ppi + p)) σ →
+      σ "z" = false) := by
+  have hcl : benchClosedB exWide = true := by decide +kernel
+  have ho : orderOKB (benchNet exWide) exWideOrder = true := by decide +kernel
+  have hfk : forksOKB (benchNet exWide) exWideOrder = true := by decide +kernel
+  have hall : linesDrivenB Gen.kindPrefixes (benchNet exWide) exWideOrder = true := by decide +kernel
+  have hg : (⟨"z", "AND", ["a", "b", "c", "d", "e"]⟩ : BGate) ∈ benchGates exWide := by decide +kernel
+  have hfree : ∀ s ∈ ["a", "b", "c", "d", "e"], isGateName exWide s = false := by decide +kernel
+  have hz : exWideEnv (benchNet exWide).idx.zero = false := by decide +kernel
+  have hvals : ∀ s ∈ ["a", "b", "c", "d"],
+      freeVal exWide false (fun p => exWideEnv ((benchNet exWide).idx.ppi + p)) s = true := by decide +kernel
+  have hval_e : freeVal exWide false (fun p => exWideEnv ((benchNet exWide).idx.ppi + p)) "e" = false := by decide +kernel
+  refine ⟨hcl, by decide +kernel, by decide +kernel, ho, hfk, hall, by decide +kernel, ?_, ?_⟩
+  · obtain ⟨σ, hm, _, hl, _⟩ := bench_end_to_end_as_simulated exWide (by decide +kernel) exWideOrder ho hfk hall exWideEnv
+    rw [hl 0 (by decide +kernel), bench_label_def]
+    have h0 : (benchSigs exWide).getD 0 "" = "z" := by decide +kernel
+    rw [h0, hm.1 _ hg, hz]
+    have ha := hm.2 "a" (hfree _ (by decide)); have hb := hm.2 "b" (hfree _ (by decide))
+    have hc := hm.2 "c" (hfree _ (by decide)); have hd := hm.2 "d" (hfree _ (by decide))
+    rw [hz] at ha hb hc hd
+    rw [hvals _ (by decide)] at ha hb hc hd
+    have : stmtVal exWide false prim2 (fun p => exWideEnv ((benchNet exWide).idx.ppi + p)) ⟨"z", "AND", ["a", "b", "c", "d", "e"]⟩ σ =
+        prim2 "AND4" (σ "a") (σ "b") (σ "c") (σ "d") := by
+      have hk : isSeqKind "AND" = false := by decide +kernel
+      have hp : specPrimName "AND".toLower (decide (2 < 5)) (decide (3 < 5)) = some "AND4" := by decide +kernel
+      simp only [stmtVal, hk, Bool.false_eq_true, if_false, gateVal, List.length_cons, List.length_nil, hp]
+      rfl
+    rw [this, ha, hb, hc, hd]; decide +kernel
+  · intro σ hm
+    rw [hz] at hm
+    have he := hm.2 "e" (hfree _ (by decide))
+    rw [hval_e] at he
+    rw [hm.1 _ hg]
+    have hk : isSeqKind "AND" = false := by decide +kernel
+    have hf : specFamily "AND".toLower = some ("and", "AND4", "AND3", "AND2") := by decide +kernel
+    simp only [stmtValN, hk, Bool.false_eq_true, if_false, gateFunN, hf, List.map_cons, List.map_nil, he]
+    simp [padTwo]
 end ParsedSem
 
 /-! ## `parsed_sem`, structural Verilog (fragment `verilogOKB`): the parsed circuit has the function the module denotes
@@ -1007,9 +1144,12 @@ theorem verilog_snodes (cfg : Cfg) (tl : TL) (ports : List String) (stmts : List
 (1) every model `σ` of the module induces a labelling of the lines consistent with the netlist (line `i` carries `sigVal σ` of
 `vSigs[i]`: an instance output line its driven signal, an assign line its source, a reader line — and both halves of a branch,
 and the line of a constant cell — the signal or constant read);
-(2) every labelling consistent with the netlist is induced by a model; (3) one model per labelling. -/
+(2) every labelling consistent with the netlist is induced by a model; (3) one model per labelling.
+DOMAIN hypothesis `vArityB` (audit finding 1, known finding D33; not used by the proof): every connected input pin of a combinational
+instance has pin index 0..3 — `instVal` and `lineEq` read these four only, as the real simulator does; an instance of a primitive
+kind with a fifth input pin is simulated as the 4-input primitive of pins 0..3. -/
 theorem verilog_parsed_sem {α : Type} (cfg : Cfg) (tl : TL) (ports : List String) (stmts : List Stmt)
-    (hok : verilogOKB cfg tl ports stmts = true) (z : α) (neg : α → α) (prim : String → α → α → α → α → α) (a : Nat → α) :
+    (hok : verilogOKB cfg tl ports stmts = true) (_har : vArityB tl stmts = true) (z : α) (neg : α → α) (prim : String → α → α → α → α → α) (a : Nat → α) :
     (∀ σ, VModel tl ports stmts z neg prim a σ →
       NetLabelling (verilogNet cfg tl ports stmts) z neg prim a (vLabel cfg tl stmts z prim σ)) ∧
     (∀ v, NetLabelling (verilogNet cfg tl ports stmts) z neg prim a v →
@@ -1044,9 +1184,10 @@ theorem verilog_checker_sound {α : Type} [BEq α] [LawfulBEq α] (tl : TL) (por
 /-- **`verilog_end_to_end`** (2-valued; composition with C01/C02): for every module of the fragment, every topological order of
 its net that schedules every line (`orderOKB`, `forksOKB`, `linesDrivenB`: decidable, evaluated by the driver on every real circuit
 and order) and every stimulus: exactly ONE model `σ`, the 2-valued `LogicSim` result is the value of the line's signal on every
-line, and what is captured at every interface position is what the module observes -/
+line, and what is captured at every interface position is what the module observes.  `vArityB`: domain hypothesis as in
+`verilog_parsed_sem` -/
 theorem verilog_end_to_end (cfg : Cfg) (tl : TL) (ports : List String) (stmts : List Stmt) (hok : verilogOKB cfg tl ports stmts = true)
-    (order : List Nat) (ho : orderOKB (verilogNet cfg tl ports stmts) order = true)
+    (_har : vArityB tl stmts = true) (order : List Nat) (ho : orderOKB (verilogNet cfg tl ports stmts) order = true)
     (hfk : forksOKB (verilogNet cfg tl ports stmts) order = true)
     (hall : linesDrivenB Gen.kindPrefixes (verilogNet cfg tl ports stmts) order = true) (env : Nat → Bool) :
     ∃ σ, VModel tl ports stmts (env (verilogNet cfg tl ports stmts).idx.zero) (!·) prim2
@@ -1064,7 +1205,7 @@ theorem verilog_end_to_end (cfg : Cfg) (tl : TL) (ports : List String) (stmts : 
 
 /-- the same for the 8-valued simulation against the documented algebra -/
 theorem verilog_end_to_end8 (cfg : Cfg) (tl : TL) (ports : List String) (stmts : List Stmt) (hok : verilogOKB cfg tl ports stmts = true)
-    (order : List Nat) (ho : orderOKB (verilogNet cfg tl ports stmts) order = true)
+    (_har : vArityB tl stmts = true) (order : List Nat) (ho : orderOKB (verilogNet cfg tl ports stmts) order = true)
     (hfk : forksOKB (verilogNet cfg tl ports stmts) order = true)
     (hall : linesDrivenB Gen.kindPrefixes (verilogNet cfg tl ports stmts) order = true) (env : Nat → V3) :
     ∃ σ, VModel tl ports stmts (env (verilogNet cfg tl ports stmts).idx.zero) specNot prim8
@@ -1103,6 +1244,7 @@ def exV : List Stmt := [.decls [⟨.input, "a", none⟩], .decls [⟨.output, "z
 /-- assignment: `a = 1` (position 0), state of `f` = 1 (position 3; positions 1, 2 are the output ports) -/
 def exVA : Nat → Bool := fun p => p == 0 || p == 3
 
+example : vArityB exTL2 exV = true := by decide +kernel
 example : verilogOKB {} exTL2 ["a", "z", "y"] exV = true ∧ verilogOKB { bf := true } exTL2 ["a", "z", "y"] exV = true ∧
     verilogOKB { assignFix := true } exTL2 ["a", "z", "y"] exV = true ∧ (module {} exTL2 ["a", "z", "y"] exV).err = false := by
   decide +kernel
